@@ -1,3 +1,46 @@
+/-
+  C18 — A restricted character string only ever holds characters of its character set.
+
+  What is proved (for EVERY octet string `bs`, of any length, and all four character sets):
+
+  * `chars_eq_spec`    `CharSet.chars cs bs = .ok (Spec.csDecode (toSpec cs) bs)`: the model of
+                       `CharSet::next_char` iterated to the end never panics, never runs out of its
+                       fuel, accepts exactly the valid encodings (digits and space; the
+                       PrintableString repertoire; 7-bit ASCII; well-formed UTF-8 per RFC 3629) and
+                       yields exactly the characters encoded.
+  * `check_eq_spec`    `CharSet::check` returns `true` exactly on the valid encodings.
+  * `fromStr_eq_spec`, `fromStr_utf8`, `fromStr_wellformed`   `CharSet::from_str`.
+  * `new_eq_spec`, `rs_chars_eq_spec`, `chars_of_new`, `segmentation_irrelevant`,
+    `fromContent_eq`   `RestrictedString::{new, chars/Display, from_content}`.
+  * `csDecode_scalar`, `chars_scalar`   every character yielded is a Unicode scalar value.
+  * `utf8_decode_iff`, `numeric_decode_iff`, `printable_decode_iff`, `ia5_decode_iff`
+                       the reference decoder itself, characterised independently of how it searches:
+                       `bs` decodes to `l` iff `bs` is the concatenation of the encodings of the
+                       scalar values `l` (resp. `l` is `bs` octet by octet and every octet is in the
+                       set).  These tie "accepted" to "a valid encoding in the character set" and
+                       "yielded" to "the characters encoded".
+
+  The UTF-8 part goes through one-step lemmas: `nextChar_sound` (a step of the model's decoder that
+  yields `c` consumed exactly `utf8Encode c`, `c` scalar), `nextChar_complete` (on
+  `utf8Encode c ++ rest` with `c` scalar the model yields `c` and `rest`), `enc_prefix_free` (an
+  octet string starts with at most one encoding), hence `step_agree` (the model's step and the
+  reference's "unique k ∈ 1..4" step coincide), then induction on the fuel.
+
+  Segmentation: `RS.new` / `RS.chars` see an `OS` only through `OS.octets` (the concatenation of the
+  segments of a constructed value, C16/C17), so every statement is about that octet sequence and
+  holds whatever the segmentation — in particular when a multi-octet character straddles a segment
+  boundary (see the last examples).
+
+  NOT covered here:
+  * that a Rust `str` is well-formed UTF-8 is Rust's guarantee, not a theorem: the model's
+    `fromStr .utf8` returns its argument unconditionally (`fromStr_utf8`), as the Rust code does;
+    `fromStr_wellformed` states the uniform "accepted iff valid" under that explicit hypothesis.
+  * `OS.octets` producing `.ok bs` for every value built by `OctetString::from_content` is C16's
+    subject; here it is a hypothesis (`new_octets_err` covers the other branch: the failure is passed
+    on, nothing is accepted).
+  * characters are modelled as their code points (`Nat`); the text rendering of `Display` beyond the
+    sequence of characters is not modelled.
+-/
 import Bcder.Model.Restricted
 import Bcder.Spec.Values
 import Bcder.Lemmas.Bytes
@@ -50,5 +93,756 @@ theorem charsAux_simple (cs : CharSet) (p : UInt8 → Bool)
       | true =>
         simp only [if_true, ih n hr, bind, Except.bind, List.all_cons, hp, Bool.true_and, List.map_cons]
         cases rest.all p <;> rfl
+
+/-! ## UTF-8: bit operations as arithmetic -/
+
+theorem and3f (b : UInt8) : (b &&& 0x3F).toNat = b.toNat % 64 := by
+  revert b; apply UInt8.forall_bv; decide
+theorem and1f (b : UInt8) : (b &&& 0x1F).toNat = b.toNat % 32 := by
+  revert b; apply UInt8.forall_bv; decide
+theorem and0f (b : UInt8) : (b &&& 0x0F).toNat = b.toNat % 16 := by
+  revert b; apply UInt8.forall_bv; decide
+theorem and07 (b : UInt8) : (b &&& 0x07).toNat = b.toNat % 8 := by
+  revert b; apply UInt8.forall_bv; decide
+theorem isCont_iff (b : UInt8) :
+    CharSet.isContinuation b = decide (128 ≤ b.toNat ∧ b.toNat < 192) := by
+  revert b; apply UInt8.forall_bv; decide
+
+/-- a multiple of `2^k` or-ed with something below `2^k` is their sum -/
+theorem or_low (x y k : Nat) (hx : x % 2 ^ k = 0) (hy : y < 2 ^ k) : x ||| y = x + y := by
+  rw [← Nat.mul_div_cancel' (Nat.dvd_of_mod_eq_zero hx)]
+  exact (Nat.two_pow_add_eq_or_of_lt hy _).symm
+
+theorem code2 (a b : Nat) (hb : b < 64) : (a <<< 6) ||| b = a * 64 + b := by
+  rw [Nat.shiftLeft_eq]; exact or_low _ _ 6 (by omega) (by omega)
+theorem code3 (a b c : Nat) (hb : b < 64) (hc : c < 64) :
+    (a <<< 12) ||| (b <<< 6) ||| c = a * 4096 + b * 64 + c := by
+  simp only [Nat.shiftLeft_eq]
+  have h1 : a * 2 ^ 12 ||| b * 2 ^ 6 = a * 4096 + b * 64 := or_low _ _ 12 (by omega) (by omega)
+  rw [h1]; exact or_low _ _ 6 (by omega) (by omega)
+theorem code4 (a b c d : Nat) (hb : b < 64) (hc : c < 64) (hd : d < 64) :
+    (a <<< 18) ||| (b <<< 12) ||| (c <<< 6) ||| d = a * 262144 + b * 4096 + c * 64 + d := by
+  simp only [Nat.shiftLeft_eq]
+  have h1 : a * 2 ^ 18 ||| b * 2 ^ 12 = a * 262144 + b * 4096 := or_low _ _ 18 (by omega) (by omega)
+  have h2 : a * 262144 + b * 4096 ||| c * 2 ^ 6 = a * 262144 + b * 4096 + c * 64 :=
+    or_low _ _ 12 (by omega) (by omega)
+  rw [h1, h2]; exact or_low _ _ 6 (by omega) (by omega)
+
+theorem isScalar_eq (c : Nat) : CharSet.isScalar c = Spec.isScalar c := by
+  simp [CharSet.isScalar, Spec.isScalar]
+
+theorem toChar_some (code min c : Nat) (h : CharSet.toChar code min = some c) :
+    c = code ∧ min ≤ code ∧ Spec.isScalar code = true := by
+  unfold CharSet.toChar at h
+  split at h
+  · cases h
+  · split at h
+    · rename_i h1 h2; rw [isScalar_eq] at h2; cases h; exact ⟨rfl, by omega, h2⟩
+    · cases h
+
+theorem lt_80 (b : UInt8) : (b < 0x80) = (b.toNat < 128) := by simp [UInt8.lt_iff_toNat_lt]
+theorem lt_C0 (b : UInt8) : (b < 0xC0) = (b.toNat < 192) := by simp [UInt8.lt_iff_toNat_lt]
+theorem lt_E0 (b : UInt8) : (b < 0xE0) = (b.toNat < 224) := by simp [UInt8.lt_iff_toNat_lt]
+theorem lt_F0 (b : UInt8) : (b < 0xF0) = (b.toNat < 240) := by simp [UInt8.lt_iff_toNat_lt]
+theorem gt_F7 (b : UInt8) : (b > 0xF7) = (247 < b.toNat) := by simp [GT.gt, UInt8.lt_iff_toNat_lt]
+
+theorem code2' (f s : UInt8) :
+    ((f &&& 0x1F).toNat <<< 6) ||| (s &&& 0x3F).toNat = f.toNat % 32 * 64 + s.toNat % 64 := by
+  rw [and1f, and3f]; exact code2 _ _ (by omega)
+theorem code3' (f s t : UInt8) :
+    ((f &&& 0x0F).toNat <<< 12) ||| ((s &&& 0x3F).toNat <<< 6) ||| (t &&& 0x3F).toNat
+      = f.toNat % 16 * 4096 + s.toNat % 64 * 64 + t.toNat % 64 := by
+  rw [and0f, and3f, and3f]; exact code3 _ _ _ (by omega) (by omega)
+theorem code4' (f s t u : UInt8) :
+    ((f &&& 0x07).toNat <<< 18) ||| ((s &&& 0x3F).toNat <<< 12) ||| ((t &&& 0x3F).toNat <<< 6)
+        ||| (u &&& 0x3F).toNat
+      = f.toNat % 8 * 262144 + s.toNat % 64 * 4096 + t.toNat % 64 * 64 + u.toNat % 64 := by
+  rw [and07, and3f, and3f, and3f]; exact code4 _ _ _ _ (by omega) (by omega) (by omega)
+
+theorem enc1 (f : UInt8) (hf : f.toNat < 128) : Spec.utf8Encode f.toNat = [f] := by
+  unfold Spec.utf8Encode
+  rw [if_pos (by omega), ofNat_toNat]
+theorem enc2 (f s : UInt8) (hf : 192 ≤ f.toNat ∧ f.toNat < 224) (hs : 128 ≤ s.toNat ∧ s.toNat < 192)
+    (hmin : 128 ≤ f.toNat % 32 * 64 + s.toNat % 64) :
+    Spec.utf8Encode (f.toNat % 32 * 64 + s.toNat % 64) = [f, s] := by
+  unfold Spec.utf8Encode
+  rw [if_neg (by omega), if_pos (by omega), ← byte_of_toNat f _ (by omega),
+    ← byte_of_toNat s _ (by omega)]
+theorem enc3 (f s t : UInt8) (hf : 224 ≤ f.toNat ∧ f.toNat < 240)
+    (hs : 128 ≤ s.toNat ∧ s.toNat < 192) (ht : 128 ≤ t.toNat ∧ t.toNat < 192)
+    (hmin : 2048 ≤ f.toNat % 16 * 4096 + s.toNat % 64 * 64 + t.toNat % 64) :
+    Spec.utf8Encode (f.toNat % 16 * 4096 + s.toNat % 64 * 64 + t.toNat % 64) = [f, s, t] := by
+  unfold Spec.utf8Encode
+  rw [if_neg (by omega), if_neg (by omega), if_pos (by omega), ← byte_of_toNat f _ (by omega),
+    ← byte_of_toNat s _ (by omega), ← byte_of_toNat t _ (by omega)]
+theorem enc4 (f s t u : UInt8) (hf : 240 ≤ f.toNat ∧ f.toNat ≤ 247)
+    (hs : 128 ≤ s.toNat ∧ s.toNat < 192) (ht : 128 ≤ t.toNat ∧ t.toNat < 192)
+    (hu : 128 ≤ u.toNat ∧ u.toNat < 192)
+    (hmin : 65536 ≤ f.toNat % 8 * 262144 + s.toNat % 64 * 4096 + t.toNat % 64 * 64 + u.toNat % 64) :
+    Spec.utf8Encode (f.toNat % 8 * 262144 + s.toNat % 64 * 4096 + t.toNat % 64 * 64 + u.toNat % 64)
+      = [f, s, t, u] := by
+  unfold Spec.utf8Encode
+  rw [if_neg (by omega), if_neg (by omega), if_neg (by omega), ← byte_of_toNat f _ (by omega),
+    ← byte_of_toNat s _ (by omega), ← byte_of_toNat t _ (by omega), ← byte_of_toNat u _ (by omega)]
+
+/-- (a) a successful step of the model's UTF-8 decoder yields a scalar value and has consumed
+    exactly its RFC 3629 encoding -/
+theorem nextChar_sound (it : Bytes) (c : Nat) (rest : Bytes)
+    (h : CharSet.nextChar .utf8 it = .ok (some (c, rest))) :
+    Spec.isScalar c = true ∧ it = Spec.utf8Encode c ++ rest := by
+  unfold CharSet.nextChar at h
+  simp only [lt_80, lt_C0, lt_E0, lt_F0, gt_F7, isCont_iff, code2', code3', code4'] at h
+  split at h
+  · cases h
+  · rename_i f it1
+    split at h
+    · rename_i h1
+      cases h
+      refine ⟨by simp [Spec.isScalar]; omega, ?_⟩
+      rw [enc1 f h1]; rfl
+    · rename_i h1
+      split at h
+      · cases h
+      · rename_i s it2
+        split at h
+        · cases h
+        · rename_i h2
+          simp only [Bool.or_eq_true, decide_eq_true_eq, Bool.not_eq_true',
+            decide_eq_false_iff_not, not_or, Decidable.not_not] at h2
+          split at h
+          · rename_i h3
+            split at h
+            · rename_i c' hc
+              cases h
+              obtain ⟨rfl, hmin, hsc⟩ := toChar_some _ _ _ hc
+              refine ⟨hsc, ?_⟩
+              rw [enc2 f s (by omega) h2.2 hmin]; rfl
+            · cases h
+          · rename_i h3
+            split at h
+            · cases h
+            · rename_i t it3
+              split at h
+              · cases h
+              · rename_i h4
+                simp only [Bool.not_eq_true', decide_eq_false_iff_not, Decidable.not_not] at h4
+                split at h
+                · rename_i h5
+                  split at h
+                  · rename_i c' hc
+                    cases h
+                    obtain ⟨rfl, hmin, hsc⟩ := toChar_some _ _ _ hc
+                    refine ⟨hsc, ?_⟩
+                    rw [enc3 f s t (by omega) h2.2 h4 hmin]; rfl
+                  · cases h
+                · rename_i h5
+                  split at h
+                  · cases h
+                  · rename_i u it4
+                    split at h
+                    · cases h
+                    · rename_i h6
+                      simp only [Bool.or_eq_true, decide_eq_true_eq, Bool.not_eq_true',
+                        decide_eq_false_iff_not, not_or, Decidable.not_not] at h6
+                      split at h
+                      · rename_i c' hc
+                        cases h
+                        obtain ⟨rfl, hmin, hsc⟩ := toChar_some _ _ _ hc
+                        refine ⟨hsc, ?_⟩
+                        rw [enc4 f s t u (by omega) h2.2 h4 h6.2 hmin]; rfl
+                      · cases h
+
+theorem toChar_ok (code min : Nat) (hmin : min ≤ code) (hsc : Spec.isScalar code = true) :
+    CharSet.toChar code min = some code := by
+  unfold CharSet.toChar
+  rw [if_neg (by omega), isScalar_eq, if_pos hsc]
+
+theorem nc1 (f : UInt8) (rest : Bytes) (hf : f.toNat < 128) :
+    CharSet.nextChar .utf8 (f :: rest) = .ok (some (f.toNat, rest)) := by
+  simp only [CharSet.nextChar, lt_80, if_pos hf]
+
+theorem nc2 (f s : UInt8) (rest : Bytes) (c : Nat) (hf : 192 ≤ f.toNat ∧ f.toNat < 224)
+    (hs : 128 ≤ s.toNat ∧ s.toNat < 192) (hc : f.toNat % 32 * 64 + s.toNat % 64 = c)
+    (hmin : 128 ≤ c) (hsc : Spec.isScalar c = true) :
+    CharSet.nextChar .utf8 (f :: s :: rest) = .ok (some (c, rest)) := by
+  simp only [CharSet.nextChar, lt_80, lt_C0, lt_E0, isCont_iff, code2', hc]
+  rw [if_neg (by omega), if_neg (by simp; omega), if_pos (by omega), toChar_ok _ _ hmin hsc]
+
+theorem nc3 (f s t : UInt8) (rest : Bytes) (c : Nat) (hf : 224 ≤ f.toNat ∧ f.toNat < 240)
+    (hs : 128 ≤ s.toNat ∧ s.toNat < 192) (ht : 128 ≤ t.toNat ∧ t.toNat < 192)
+    (hc : f.toNat % 16 * 4096 + s.toNat % 64 * 64 + t.toNat % 64 = c)
+    (hmin : 2048 ≤ c) (hsc : Spec.isScalar c = true) :
+    CharSet.nextChar .utf8 (f :: s :: t :: rest) = .ok (some (c, rest)) := by
+  simp only [CharSet.nextChar, lt_80, lt_C0, lt_E0, lt_F0, isCont_iff, code3', hc]
+  rw [if_neg (by omega), if_neg (by simp; omega), if_neg (by omega), if_neg (by simp; omega),
+    if_pos (by omega), toChar_ok _ _ hmin hsc]
+
+theorem nc4 (f s t u : UInt8) (rest : Bytes) (c : Nat) (hf : 240 ≤ f.toNat ∧ f.toNat ≤ 247)
+    (hs : 128 ≤ s.toNat ∧ s.toNat < 192) (ht : 128 ≤ t.toNat ∧ t.toNat < 192)
+    (hu : 128 ≤ u.toNat ∧ u.toNat < 192)
+    (hc : f.toNat % 8 * 262144 + s.toNat % 64 * 4096 + t.toNat % 64 * 64 + u.toNat % 64 = c)
+    (hmin : 65536 ≤ c) (hsc : Spec.isScalar c = true) :
+    CharSet.nextChar .utf8 (f :: s :: t :: u :: rest) = .ok (some (c, rest)) := by
+  simp only [CharSet.nextChar, lt_80, lt_C0, lt_E0, lt_F0, gt_F7, isCont_iff, code4', hc]
+  rw [if_neg (by omega), if_neg (by simp; omega), if_neg (by omega), if_neg (by simp; omega),
+    if_neg (by omega), if_neg (by simp; omega), toChar_ok _ _ hmin hsc]
+
+theorem scalar_le (c : Nat) (h : Spec.isScalar c = true) : c ≤ 0x10FFFF := by
+  simp [Spec.isScalar] at h; omega
+
+/-- (b) on the encoding of a scalar value followed by anything, the model's UTF-8 decoder yields
+    that value and the remainder -/
+theorem nextChar_complete (c : Nat) (rest : Bytes) (hsc : Spec.isScalar c = true) :
+    CharSet.nextChar .utf8 (Spec.utf8Encode c ++ rest) = .ok (some (c, rest)) := by
+  have hle := scalar_le c hsc
+  unfold Spec.utf8Encode
+  split
+  · rename_i h
+    have := nc1 (UInt8.ofNat c) rest (by rw [toNat_ofNat]; omega)
+    rw [toNat_ofNat, Nat.mod_eq_of_lt (by omega)] at this
+    exact this
+  · split
+    · exact nc2 _ _ rest c (by rw [toNat_ofNat]; omega) (by rw [toNat_ofNat]; omega)
+        (by simp only [toNat_ofNat]; omega) (by omega) hsc
+    · split
+      · exact nc3 _ _ _ rest c (by rw [toNat_ofNat]; omega) (by rw [toNat_ofNat]; omega)
+          (by rw [toNat_ofNat]; omega) (by simp only [toNat_ofNat]; omega) (by omega) hsc
+      · exact nc4 _ _ _ _ rest c (by rw [toNat_ofNat]; omega) (by rw [toNat_ofNat]; omega)
+          (by rw [toNat_ofNat]; omega) (by rw [toNat_ofNat]; omega)
+          (by simp only [toNat_ofNat]; omega) (by omega) hsc
+
+/-- the `tryK` of `Spec.utf8Decode`, named -/
+def tryK (bs : Bytes) (k : Nat) : Option (Nat × Bytes) :=
+  match Spec.utf8Candidate (bs.take k) with
+  | some c =>
+    if (bs.take k).length == k && Spec.isScalar c && Spec.utf8Encode c == bs.take k
+    then some (c, bs.drop k) else none
+  | none => none
+
+/-- the reference's search for the unique `k ∈ 1..4` -/
+def specStep (bs : Bytes) : Option (Nat × Bytes) :=
+  (tryK bs 1).orElse fun _ => (tryK bs 2).orElse fun _ => (tryK bs 3).orElse fun _ => tryK bs 4
+
+def decodeTail (fuel : Nat) : Option (Nat × Bytes) → Option (List Nat)
+  | some (c, rest) => (Spec.utf8Decode fuel rest).map (c :: ·)
+  | none => none
+
+/-- one unfolding of the reference decoder, with its local search named `specStep` -/
+theorem utf8Decode_succ (fuel : Nat) (bs : Bytes) :
+    Spec.utf8Decode (fuel + 1) bs
+      = if bs.isEmpty then some [] else decodeTail fuel (specStep bs) := by
+  rw [Spec.utf8Decode]
+  split
+  · rfl
+  · rfl
+
+/-- a successful candidate length `k` in the reference search -/
+theorem tryK_some (bs : Bytes) (k c : Nat) (r : Bytes) (h : tryK bs k = some (c, r)) :
+    Spec.isScalar c = true ∧ bs = Spec.utf8Encode c ++ r ∧ (Spec.utf8Encode c).length = k := by
+  unfold tryK at h
+  split at h
+  · split at h
+    · rename_i c' _ hc
+      simp only [Bool.and_eq_true, beq_iff_eq] at hc
+      obtain ⟨⟨h1, h2⟩, h3⟩ := hc
+      cases h
+      refine ⟨h2, ?_, ?_⟩
+      · rw [h3, List.take_append_drop]
+      · rw [h3, h1]
+    · cases h
+  · cases h
+
+/-- the bit-layout candidate of an encoding is the value encoded -/
+theorem cand_enc (c : Nat) (h : Spec.isScalar c = true) :
+    Spec.utf8Candidate (Spec.utf8Encode c) = some c := by
+  have := scalar_le c h
+  unfold Spec.utf8Encode
+  split
+  · simp only [Spec.utf8Candidate, toNat_ofNat]; congr 1; omega
+  · split
+    · simp only [Spec.utf8Candidate, toNat_ofNat]; congr 1; omega
+    · split
+      · simp only [Spec.utf8Candidate, toNat_ofNat]; congr 1; omega
+      · simp only [Spec.utf8Candidate, toNat_ofNat]; congr 1; omega
+
+/-- the length of an encoding as announced by its first octet -/
+def lenOfFirst (f : UInt8) : Nat :=
+  if f.toNat < 128 then 1 else if f.toNat < 224 then 2 else if f.toNat < 240 then 3 else 4
+
+theorem enc_len_first (c : Nat) (h : Spec.isScalar c = true) :
+    ∃ f t, Spec.utf8Encode c = f :: t ∧ (f :: t).length = lenOfFirst f := by
+  have := scalar_le c h
+  unfold Spec.utf8Encode
+  split
+  · exact ⟨_, _, rfl, by simp only [lenOfFirst, toNat_ofNat]; rw [if_pos (by omega)]; rfl⟩
+  · split
+    · exact ⟨_, _, rfl, by
+        simp only [lenOfFirst, toNat_ofNat]; rw [if_neg (by omega), if_pos (by omega)]; rfl⟩
+    · split
+      · exact ⟨_, _, rfl, by
+          simp only [lenOfFirst, toNat_ofNat]
+          rw [if_neg (by omega), if_neg (by omega), if_pos (by omega)]; rfl⟩
+      · exact ⟨_, _, rfl, by
+          simp only [lenOfFirst, toNat_ofNat]
+          rw [if_neg (by omega), if_neg (by omega), if_neg (by omega)]; rfl⟩
+
+theorem enc_len_range (c : Nat) : 1 ≤ (Spec.utf8Encode c).length ∧ (Spec.utf8Encode c).length ≤ 4 := by
+  unfold Spec.utf8Encode
+  split
+  · simp
+  · split
+    · simp
+    · split <;> simp
+
+/-- `utf8Encode` is prefix-free on scalar values: an octet string starts with at most one encoding -/
+theorem enc_prefix_free (c c' : Nat) (r r' : Bytes) (h : Spec.isScalar c = true)
+    (h' : Spec.isScalar c' = true) (e : Spec.utf8Encode c ++ r = Spec.utf8Encode c' ++ r') :
+    c = c' ∧ r = r' := by
+  obtain ⟨f, t, hf, hl⟩ := enc_len_first c h
+  obtain ⟨f', t', hf', hl'⟩ := enc_len_first c' h'
+  have e2 := e
+  rw [hf, hf'] at e2
+  have hff : f = f' := by simp only [List.cons_append, List.cons.injEq] at e2; exact e2.1
+  have hlen : (Spec.utf8Encode c).length = (Spec.utf8Encode c').length := by
+    rw [hf, hf', hl, hl', hff]
+  obtain ⟨e3, e4⟩ := List.append_inj e hlen
+  have h1 := cand_enc c h
+  have h2 := cand_enc c' h'
+  rw [e3, h2] at h1
+  exact ⟨(Option.some.inj h1).symm, e4⟩
+
+theorem tryK_complete (c : Nat) (rest : Bytes) (h : Spec.isScalar c = true) :
+    tryK (Spec.utf8Encode c ++ rest) (Spec.utf8Encode c).length = some (c, rest) := by
+  unfold tryK
+  rw [List.take_left, List.drop_left, cand_enc c h]
+  simp [h]
+
+theorem specStep_some (bs : Bytes) (x : Nat × Bytes) (h : specStep bs = some x) :
+    ∃ k, tryK bs k = some x := by
+  unfold specStep at h
+  cases h1 : tryK bs 1 with
+  | some y => rw [h1] at h; exact ⟨1, by rw [h1]; exact h⟩
+  | none =>
+    cases h2 : tryK bs 2 with
+    | some y => rw [h1, h2] at h; exact ⟨2, by rw [h2]; exact h⟩
+    | none =>
+      cases h3 : tryK bs 3 with
+      | some y => rw [h1, h2, h3] at h; exact ⟨3, by rw [h3]; exact h⟩
+      | none => rw [h1, h2, h3] at h; exact ⟨4, h⟩
+
+theorem specStep_of_tryK (bs : Bytes) (k : Nat) (x : Nat × Bytes) (h : tryK bs k = some x)
+    (hk : 1 ≤ k ∧ k ≤ 4) : ∃ y, specStep bs = some y := by
+  unfold specStep
+  cases h1 : tryK bs 1 with
+  | some y => exact ⟨y, rfl⟩
+  | none =>
+    cases h2 : tryK bs 2 with
+    | some y => exact ⟨y, rfl⟩
+    | none =>
+      cases h3 : tryK bs 3 with
+      | some y => exact ⟨y, rfl⟩
+      | none =>
+        cases h4 : tryK bs 4 with
+        | some y => exact ⟨y, rfl⟩
+        | none =>
+          exfalso
+          have : k = 1 ∨ k = 2 ∨ k = 3 ∨ k = 4 := by omega
+          rcases this with rfl | rfl | rfl | rfl <;> simp_all
+
+theorem specStep_sound (bs : Bytes) (c : Nat) (r : Bytes) (h : specStep bs = some (c, r)) :
+    Spec.isScalar c = true ∧ bs = Spec.utf8Encode c ++ r := by
+  obtain ⟨k, hk⟩ := specStep_some bs _ h
+  obtain ⟨h1, h2, _⟩ := tryK_some bs k c r hk
+  exact ⟨h1, h2⟩
+
+/-- (c) the reference's first-match search finds the encoding that is there -/
+theorem specStep_complete (c : Nat) (rest : Bytes) (h : Spec.isScalar c = true) :
+    specStep (Spec.utf8Encode c ++ rest) = some (c, rest) := by
+  obtain ⟨⟨c', r'⟩, hy⟩ := specStep_of_tryK _ _ _ (tryK_complete c rest h) (enc_len_range c)
+  obtain ⟨h1, h2⟩ := specStep_sound _ _ _ hy
+  obtain ⟨rfl, rfl⟩ := enc_prefix_free c c' rest r' h h1 h2
+  exact hy
+
+/-- the model reports the end only at the end -/
+theorem nextChar_none (bs : Bytes) (h : CharSet.nextChar .utf8 bs = .ok none) : bs = [] := by
+  cases bs with
+  | nil => rfl
+  | cons f t =>
+    exfalso
+    simp only [CharSet.nextChar] at h
+    repeat' (first | (cases h; done) | split at h)
+
+/-- one step of the model's UTF-8 decoder is one step of the reference decoder -/
+theorem step_agree (bs : Bytes) :
+    (CharSet.nextChar .utf8 bs = .ok none ∧ bs = []) ∨
+    (CharSet.nextChar .utf8 bs = .error () ∧ bs ≠ [] ∧ specStep bs = none) ∨
+    (∃ c rest, CharSet.nextChar .utf8 bs = .ok (some (c, rest)) ∧ specStep bs = some (c, rest) ∧
+      rest.length < bs.length) := by
+  cases hn : CharSet.nextChar .utf8 bs with
+  | error e =>
+    right; left
+    refine ⟨rfl, ?_, ?_⟩
+    · rintro rfl; simp [CharSet.nextChar] at hn
+    · cases hs : specStep bs with
+      | none => rfl
+      | some y =>
+        obtain ⟨c, r⟩ := y
+        obtain ⟨h1, h2⟩ := specStep_sound _ _ _ hs
+        rw [h2, nextChar_complete c r h1] at hn
+        cases hn
+  | ok v =>
+    cases v with
+    | none =>
+      left
+      exact ⟨rfl, nextChar_none bs hn⟩
+    | some y =>
+      obtain ⟨c, r⟩ := y
+      right; right
+      obtain ⟨h1, h2⟩ := nextChar_sound _ _ _ hn
+      refine ⟨c, r, rfl, ?_, ?_⟩
+      · rw [h2]; exact specStep_complete c r h1
+      · rw [h2, List.length_append]; have := enc_len_range c; omega
+
+/-- the model's UTF-8 decoder and the reference decoder agree, given enough fuel -/
+theorem charsAux_utf8 : ∀ (fuel : Nat) (bs : Bytes), bs.length < fuel →
+    CharSet.charsAux .utf8 fuel bs = .ok (Spec.utf8Decode fuel bs) := by
+  intro fuel
+  induction fuel with
+  | zero => intro bs h; omega
+  | succ n ih =>
+    intro bs hlen
+    rw [utf8Decode_succ, CharSet.charsAux]
+    rcases step_agree bs with ⟨h1, rfl⟩ | ⟨h1, h2, h3⟩ | ⟨c, rest, h1, h2, h3⟩
+    · rw [h1]; rfl
+    · rw [h1, h3]
+      have : bs.isEmpty = false := by cases bs with | nil => exact absurd rfl h2 | cons _ _ => rfl
+      simp [this, decodeTail]
+    · rw [h1, h2]
+      have : bs.isEmpty = false := by
+        cases bs with
+        | nil => simp at h3
+        | cons _ _ => rfl
+      simp only [ih rest (by omega), this, decodeTail, bind, Except.bind]
+      cases Spec.utf8Decode n rest <;> rfl
+
+/-! ## main theorems -/
+
+/-- C18 (1) — for every character set and every octet string, of any length, the model's decoder
+    (`CharSet::next_char` iterated to the end) terminates within its fuel, raises no panic, accepts
+    exactly the valid encodings and yields exactly the characters the reference decoder yields -/
+theorem chars_eq_spec (cs : CharSet) (bs : Bytes) :
+    CharSet.chars cs bs = .ok (Spec.csDecode (toSpec cs) bs) := by
+  unfold CharSet.chars
+  cases cs with
+  | utf8 => exact charsAux_utf8 (bs.length + 1) bs (by omega)
+  | numeric =>
+    rw [charsAux_simple .numeric (fun b => b == 0x20 || CharSet.isAsciiDigit b) rfl
+      (fun _ _ => rfl) bs _ (by omega)]
+    simp only [numeric_octet]; rfl
+  | printable =>
+    rw [charsAux_simple .printable CharSet.isPrintable rfl (fun _ _ => rfl) bs _ (by omega)]
+    have : CharSet.isPrintable = fun b => Spec.printableSet.contains b.toNat :=
+      funext printable_octet
+    rw [this]; rfl
+  | ia5 =>
+    rw [charsAux_simple .ia5 (fun b => decide (b < 0x80)) rfl
+      (fun _ _ => by simp only [CharSet.nextChar, decide_eq_true_eq]) bs _ (by omega)]
+    simp only [ia5_octet]; rfl
+
+/-- C18 (2) — `CharSet::check` accepts exactly the valid encodings -/
+theorem check_eq_spec (cs : CharSet) (bs : Bytes) :
+    CharSet.check cs bs = .ok (Spec.csDecode (toSpec cs) bs).isSome := by
+  simp only [CharSet.check, chars_eq_spec, bind, Except.bind, pure, Except.pure]
+
+/-- C18 (3a) — `from_str` for NumericString, PrintableString, IA5String accepts the string exactly
+    when its octets are valid in the character set -/
+theorem fromStr_eq_spec (cs : CharSet) (s : Bytes) (hcs : cs ≠ .utf8) :
+    CharSet.fromStr cs s
+      = .ok (if (Spec.csDecode (toSpec cs) s).isSome then some s else none) := by
+  cases cs with
+  | utf8 => exact absurd rfl hcs
+  | numeric | printable | ia5 =>
+    simp only [CharSet.fromStr, check_eq_spec, bind, Except.bind, pure, Except.pure]
+    cases (Spec.csDecode _ s).isSome <;> rfl
+
+/-- C18 (3b) — `from_str` for UTF8String is unconditional in the model: the octets of a Rust `str`
+    are well-formed UTF-8 by the language's guarantee, and the Rust code does not re-check them -/
+theorem fromStr_utf8 (s : Bytes) : CharSet.fromStr .utf8 s = .ok (some s) := rfl
+
+/-- C18 (3) — uniform statement: on the octets of a Rust `str` (well-formed UTF-8, hypothesis `hs`)
+    `from_str` accepts exactly when the octets are valid in the character set, for all four sets -/
+theorem fromStr_wellformed (cs : CharSet) (s : Bytes)
+    (hs : (Spec.csDecode .utf8 s).isSome = true) :
+    CharSet.fromStr cs s
+      = .ok (if (Spec.csDecode (toSpec cs) s).isSome then some s else none) := by
+  cases cs with
+  | utf8 => rw [fromStr_utf8]; simp only [toSpec, hs, if_true]
+  | numeric => exact fromStr_eq_spec _ s (by decide)
+  | printable => exact fromStr_eq_spec _ s (by decide)
+  | ia5 => exact fromStr_eq_spec _ s (by decide)
+
+/-! ## what an accepted string holds -/
+
+theorem utf8Decode_sound : ∀ (fuel : Nat) (bs : Bytes) (l : List Nat),
+    Spec.utf8Decode fuel bs = some l →
+      (∀ c ∈ l, Spec.isScalar c = true) ∧ bs = l.flatMap Spec.utf8Encode := by
+  intro fuel
+  induction fuel with
+  | zero => intro bs l h; simp [Spec.utf8Decode] at h
+  | succ n ih =>
+    intro bs l h
+    rw [utf8Decode_succ] at h
+    split at h
+    · rename_i he
+      cases h
+      cases bs with
+      | nil => simp
+      | cons _ _ => simp at he
+    · cases hs : specStep bs with
+      | none => rw [hs] at h; simp [decodeTail] at h
+      | some y =>
+        obtain ⟨c, r⟩ := y
+        rw [hs] at h
+        simp only [decodeTail, Option.map_eq_some_iff] at h
+        obtain ⟨l', hl', rfl⟩ := h
+        obtain ⟨h1, h2⟩ := specStep_sound _ _ _ hs
+        obtain ⟨h3, h4⟩ := ih r l' hl'
+        refine ⟨?_, ?_⟩
+        · intro x hx
+          rcases List.mem_cons.mp hx with rfl | hx
+          · exact h1
+          · exact h3 x hx
+        · rw [h2, h4]; rfl
+
+theorem utf8Decode_complete : ∀ (l : List Nat) (fuel : Nat),
+    (∀ c ∈ l, Spec.isScalar c = true) → (l.flatMap Spec.utf8Encode).length < fuel →
+      Spec.utf8Decode fuel (l.flatMap Spec.utf8Encode) = some l := by
+  intro l
+  induction l with
+  | nil =>
+    intro fuel _ hf
+    cases fuel with
+    | zero => simp at hf
+    | succ n => rw [utf8Decode_succ]; rfl
+  | cons c l ih =>
+    intro fuel hs hf
+    cases fuel with
+    | zero => omega
+    | succ n =>
+      have hc := hs c (List.mem_cons_self)
+      have hne := enc_len_range c
+      rw [utf8Decode_succ, List.flatMap_cons, specStep_complete c _ hc]
+      rw [List.flatMap_cons, List.length_append] at hf
+      have hemp : (Spec.utf8Encode c ++ l.flatMap Spec.utf8Encode).isEmpty = false := by
+        cases he : Spec.utf8Encode c with
+        | nil => rw [he] at hne; simp at hne
+        | cons _ _ => rfl
+      rw [hemp]
+      simp only [decodeTail, Bool.false_eq_true, if_false]
+      rw [ih n (fun x hx => hs x (List.mem_cons_of_mem _ hx)) (by omega)]
+      rfl
+
+/-- the reference UTF-8 decoder, characterised without reference to its search: `bs` decodes to
+    `l` exactly when every element of `l` is a Unicode scalar value and `bs` is the concatenation
+    of their RFC 3629 encodings.  So "the characters yielded" are "the characters encoded". -/
+theorem utf8_decode_iff (bs : Bytes) (l : List Nat) :
+    Spec.csDecode .utf8 bs = some l ↔
+      (∀ c ∈ l, Spec.isScalar c = true) ∧ bs = l.flatMap Spec.utf8Encode := by
+  constructor
+  · exact utf8Decode_sound _ bs l
+  · rintro ⟨h1, rfl⟩
+    exact utf8Decode_complete l _ h1 (by omega)
+
+theorem all_decode_iff (p : UInt8 → Bool) (q : Nat → Prop) (hpq : ∀ b, p b = true ↔ q b.toNat)
+    (bs : Bytes) (l : List Nat) :
+    (if bs.all p then some (bs.map (·.toNat)) else none) = some l ↔
+      l = bs.map (·.toNat) ∧ ∀ c ∈ l, q c := by
+  constructor
+  · intro h
+    split at h
+    · rename_i ha
+      cases h
+      refine ⟨rfl, ?_⟩
+      intro c hc
+      obtain ⟨b, hb, rfl⟩ := List.mem_map.mp hc
+      exact (hpq b).mp (List.all_eq_true.mp ha b hb)
+    · cases h
+  · rintro ⟨rfl, h⟩
+    have : bs.all p = true :=
+      List.all_eq_true.mpr fun b hb => (hpq b).mpr (h _ (List.mem_map.mpr ⟨b, hb, rfl⟩))
+    rw [this]; rfl
+
+/-- NumericString: the characters of an accepted string are its octets, each a digit or space -/
+theorem numeric_decode_iff (bs : Bytes) (l : List Nat) :
+    Spec.csDecode .numeric bs = some l ↔
+      l = bs.map (·.toNat) ∧ ∀ c ∈ l, c = 32 ∨ (48 ≤ c ∧ c ≤ 57) :=
+  all_decode_iff _ _ (fun b => by simp) bs l
+
+/-- PrintableString: the characters of an accepted string are its octets, each in the repertoire -/
+theorem printable_decode_iff (bs : Bytes) (l : List Nat) :
+    Spec.csDecode .printable bs = some l ↔
+      l = bs.map (·.toNat) ∧ ∀ c ∈ l, c ∈ Spec.printableSet :=
+  all_decode_iff _ _ (fun b => by simp) bs l
+
+/-- IA5String: the characters of an accepted string are its octets, each below 128 -/
+theorem ia5_decode_iff (bs : Bytes) (l : List Nat) :
+    Spec.csDecode .ia5 bs = some l ↔ l = bs.map (·.toNat) ∧ ∀ c ∈ l, c < 128 :=
+  all_decode_iff _ _ (fun b => by simp) bs l
+
+/-- C18 (4a) — whatever the character set, every character of a valid string is a Unicode scalar
+    value (what Rust's `char` can hold): never a surrogate, never above U+10FFFF -/
+theorem csDecode_scalar (cs : Spec.CS) (bs : Bytes) (l : List Nat)
+    (h : Spec.csDecode cs bs = some l) : ∀ c ∈ l, Spec.isScalar c = true := by
+  have small : ∀ (bs : Bytes) (c : Nat), c ∈ bs.map (·.toNat) → Spec.isScalar c = true := by
+    intro bs c hc
+    obtain ⟨b, _, rfl⟩ := List.mem_map.mp hc
+    have := byte_lt_256 b
+    simp [Spec.isScalar]; omega
+  cases cs with
+  | utf8 => exact ((utf8_decode_iff bs l).mp h).1
+  | numeric => obtain ⟨rfl, _⟩ := (numeric_decode_iff bs l).mp h; exact small bs
+  | printable => obtain ⟨rfl, _⟩ := (printable_decode_iff bs l).mp h; exact small bs
+  | ia5 => obtain ⟨rfl, _⟩ := (ia5_decode_iff bs l).mp h; exact small bs
+
+/-- C18 (4a) for the model: iterating never yields an invalid character value -/
+theorem chars_scalar (cs : CharSet) (bs : Bytes) (l : List Nat)
+    (h : CharSet.chars cs bs = .ok (some l)) : ∀ c ∈ l, Spec.isScalar c = true := by
+  rw [chars_eq_spec] at h
+  exact csDecode_scalar _ bs l (Except.ok.inj h)
+
+/-! ## `RestrictedString` (any segmentation)
+
+  `RS.new` and `RS.chars` look at an `OS` only through `OS.octets`, the concatenation of its
+  segments (C16/C17).  The statements below are therefore in terms of that octet sequence `bs`
+  alone: two values with the same content behave identically however either is segmented, and a
+  multi-octet character that straddles a segment boundary is decoded like any other. -/
+
+/-- C18 (4b) — `RestrictedString::new` accepts exactly when the content is valid -/
+theorem new_eq_spec (cs : CharSet) (os : OS) (bs : Bytes) (h : os.octets = .ok bs) :
+    RS.new cs os = .ok (if (Spec.csDecode (toSpec cs) bs).isSome then some os else none) := by
+  simp only [RS.new, h, check_eq_spec, bind, Except.bind, pure, Except.pure]
+  cases (Spec.csDecode (toSpec cs) bs).isSome <;> rfl
+
+/-- if the octets of the value cannot be produced, `new` reports that same failure (it does not
+    accept) -/
+theorem new_octets_err (cs : CharSet) (os : OS) (e : Err) (h : os.octets = .error e) :
+    RS.new cs os = .error e := by
+  simp only [RS.new, h, bind, Except.bind]
+
+/-- the result of iterating / displaying: -/
+def charsResult : Option (List Nat) → Res (List Nat)
+  | some l => .ok l
+  | none => .error (.panic "next_char unwrap")
+
+/-- C18 (4c) — `chars()` / `Display` on any value: the decoded characters if the content is valid,
+    the `unwrap` panic if it is not (which `new` / `from_content` exclude, see `chars_of_new`) -/
+theorem rs_chars_eq_spec (cs : CharSet) (os : OS) (bs : Bytes) (h : os.octets = .ok bs) :
+    RS.chars cs os = charsResult (Spec.csDecode (toSpec cs) bs) := by
+  simp only [RS.chars, h, chars_eq_spec, bind, Except.bind]
+  cases Spec.csDecode (toSpec cs) bs <;> rfl
+
+/-- C18 (4c) — an accepted string iterates to exactly the encoded characters: no panic, no fuel
+    exhaustion, only scalar values -/
+theorem chars_of_new (cs : CharSet) (os os' : OS) (h : RS.new cs os = .ok (some os')) :
+    os' = os ∧ ∃ bs l, os.octets = .ok bs ∧ Spec.csDecode (toSpec cs) bs = some l ∧
+      RS.chars cs os' = .ok l ∧ ∀ c ∈ l, Spec.isScalar c = true := by
+  cases ho : os.octets with
+  | error e => rw [new_octets_err cs os e ho] at h; cases h
+  | ok bs =>
+    rw [new_eq_spec cs os bs ho] at h
+    cases hd : Spec.csDecode (toSpec cs) bs with
+    | none => rw [hd] at h; simp at h
+    | some l =>
+      rw [hd] at h
+      simp only [Option.isSome_some, if_true, Except.ok.injEq, Option.some.injEq] at h
+      subst h
+      refine ⟨rfl, bs, l, rfl, hd, ?_, csDecode_scalar _ bs l hd⟩
+      rw [rs_chars_eq_spec cs os bs ho, hd]; rfl
+
+/-- C18 — independence of segmentation: values with the same content are accepted or rejected
+    alike and yield the same characters -/
+theorem segmentation_irrelevant (cs : CharSet) (a b : OS) (bs : Bytes)
+    (ha : a.octets = .ok bs) (hb : b.octets = .ok bs) :
+    (RS.new cs a).map Option.isSome = (RS.new cs b).map Option.isSome ∧
+      RS.chars cs a = RS.chars cs b := by
+  rw [new_eq_spec cs a bs ha, new_eq_spec cs b bs hb, rs_chars_eq_spec cs a bs ha,
+    rs_chars_eq_spec cs b bs hb]
+  refine ⟨?_, rfl⟩
+  cases (Spec.csDecode (toSpec cs) bs).isSome <;> rfl
+
+/-- the continuation `from_content` runs on the octet string it has read -/
+def accept (cs : CharSet) (p : OS × Content) : Prog (OS × Content) :=
+  match p.1.octets with
+  | .error e => .fail e
+  | .ok bs => if (Spec.csDecode (toSpec cs) bs).isSome then pure p else Prog.contentErr
+
+/-- C18 (decoding route) — `RestrictedString::from_content` is `OctetString::from_content`
+    followed by the validity test: valid content is returned, invalid content is a content error -/
+theorem fromContent_eq (cs : CharSet) (fuel : Nat) (content : Content) :
+    RS.fromContent cs fuel content = (OS.fromContent fuel content).bind (accept cs) := by
+  unfold RS.fromContent
+  show Prog.bind _ _ = _
+  congr 1
+  funext p
+  obtain ⟨os, c'⟩ := p
+  simp only [accept]
+  cases ho : os.octets with
+  | error e => simp only [new_octets_err cs os e ho]
+  | ok bs =>
+    simp only [new_eq_spec cs os bs ho]
+    cases (Spec.csDecode (toSpec cs) bs).isSome <;> rfl
+
+/-! ## non-vacuity: concrete accepted and rejected inputs (model and reference agree on each) -/
+
+/-- "a", U+00E9 (2 octets), U+20AC (3 octets), U+1F600 (4 octets) -/
+example : CharSet.chars .utf8 [0x61, 0xC3, 0xA9, 0xE2, 0x82, 0xAC, 0xF0, 0x9F, 0x98, 0x80]
+    = .ok (some [0x61, 0xE9, 0x20AC, 0x1F600]) := by and_intros <;> rfl
+example : Spec.csDecode .utf8 [0x61, 0xC3, 0xA9, 0xE2, 0x82, 0xAC, 0xF0, 0x9F, 0x98, 0x80]
+    = some [0x61, 0xE9, 0x20AC, 0x1F600] := by and_intros <;> rfl
+/-- the edges of the scalar range: U+D7FF, U+E000, U+10FFFF are accepted -/
+example : CharSet.chars .utf8 [0xED, 0x9F, 0xBF, 0xEE, 0x80, 0x80, 0xF4, 0x8F, 0xBF, 0xBF]
+    = .ok (some [0xD7FF, 0xE000, 0x10FFFF]) := by and_intros <;> rfl
+/-- overlong encoding of U+0000 -/
+example : CharSet.chars .utf8 [0xC0, 0x80] = .ok none ∧ Spec.csDecode .utf8 [0xC0, 0x80] = none := by and_intros <;> rfl
+/-- overlong 3- and 4-octet forms -/
+example : CharSet.chars .utf8 [0xE0, 0x9F, 0xBF] = .ok none
+    ∧ CharSet.chars .utf8 [0xF0, 0x8F, 0xBF, 0xBF] = .ok none := by and_intros <;> rfl
+/-- a surrogate (U+D800) -/
+example : CharSet.chars .utf8 [0xED, 0xA0, 0x80] = .ok none
+    ∧ Spec.csDecode .utf8 [0xED, 0xA0, 0x80] = none := by and_intros <;> rfl
+/-- above U+10FFFF -/
+example : CharSet.chars .utf8 [0xF4, 0x90, 0x80, 0x80] = .ok none
+    ∧ Spec.csDecode .utf8 [0xF4, 0x90, 0x80, 0x80] = none := by and_intros <;> rfl
+/-- a stray continuation octet, a truncated character, a 5-octet lead -/
+example : CharSet.chars .utf8 [0x61, 0x80] = .ok none ∧ Spec.csDecode .utf8 [0x61, 0x80] = none
+    ∧ CharSet.chars .utf8 [0xE2, 0x82] = .ok none ∧ Spec.csDecode .utf8 [0xE2, 0x82] = none
+    ∧ CharSet.chars .utf8 [0xF8, 0x88, 0x80, 0x80, 0x80] = .ok none := by and_intros <;> rfl
+/-- the single-octet sets -/
+example : CharSet.chars .numeric [0x31, 0x32, 0x20, 0x33] = .ok (some [0x31, 0x32, 0x20, 0x33])
+    ∧ CharSet.chars .numeric [0x31, 0x61] = .ok none
+    ∧ CharSet.chars .printable [0x41, 0x3D, 0x62, 0x3F] = .ok (some [0x41, 0x3D, 0x62, 0x3F])
+    ∧ CharSet.chars .printable [0x61, 0x40] = .ok none
+    ∧ CharSet.chars .printable [0x61, 0x2A] = .ok none
+    ∧ CharSet.chars .ia5 [0x00, 0x40, 0x7F] = .ok (some [0x00, 0x40, 0x7F])
+    ∧ CharSet.chars .ia5 [0x61, 0x80] = .ok none := by and_intros <;> rfl
+/-- `from_str`: "12" is a NumericString, "é" (well-formed UTF-8, the hypothesis of
+    `fromStr_wellformed`) is not -/
+example : CharSet.fromStr .numeric [0x31, 0x32] = .ok (some [0x31, 0x32])
+    ∧ (Spec.csDecode .utf8 [0xC3, 0xA9]).isSome = true
+    ∧ CharSet.fromStr .numeric [0xC3, 0xA9] = .ok none
+    ∧ CharSet.fromStr .ia5 [0xC3, 0xA9] = .ok none := by and_intros <;> rfl
+/-- a constructed value whose two segments split U+00E9 between its octets, and U+1F600 split 1+3:
+    the hypotheses of `new_eq_spec` / `segmentation_irrelevant` are satisfiable, the value is
+    accepted and iterates to the characters encoded -/
+example :
+    let os := OS.cons [0x04, 0x02, 0x61, 0xC3, 0x04, 0x02, 0xA9, 0xF0, 0x04, 0x03, 0x9F, 0x98, 0x80]
+    os.octets = .ok [0x61, 0xC3, 0xA9, 0xF0, 0x9F, 0x98, 0x80]
+    ∧ (OS.prim [0x61, 0xC3, 0xA9, 0xF0, 0x9F, 0x98, 0x80]).octets
+        = .ok [0x61, 0xC3, 0xA9, 0xF0, 0x9F, 0x98, 0x80]
+    ∧ RS.new .utf8 os = .ok (some os)
+    ∧ RS.chars .utf8 os = .ok [0x61, 0xE9, 0x1F600] := by and_intros <;> rfl
+/-- a value that `new` rejects; iterating it anyway is the `unwrap` panic of the Rust code -/
+example : RS.new .utf8 (.prim [0xC0, 0x80]) = .ok none
+    ∧ RS.chars .utf8 (.prim [0xC0, 0x80]) = .error (.panic "next_char unwrap") := by and_intros <;> rfl
 
 end Bcder.Props.C18
